@@ -383,6 +383,78 @@ func (m *fieldModel) planner(c *Ctx) []planStep {
 		if len(steps) > 0 {
 			return steps
 		}
+		// the same table at package level, the flag reached through an accessor stored in the row:
+		//   var providers = []provider{{func(f *Filter) *bool { return &f.UseReceipts }, difference(receipt, block, log), receipt}, …}
+		//   for _, p := range providers { if !any(needs, p.triggers) { continue }; *p.use(f) = true; needs = difference(needs, p.supplies) }
+		if rows, elems, ok := rangedTable(m.w, nw); ok {
+			var anyCall *ssa.Call
+			marksFld := -1
+			for _, call := range callsToFn(nw, anyFn) {
+				if k, ok := elemField(call.Call.Args[1], elems); ok {
+					anyCall, marksFld = call, k
+				}
+			}
+			if anyCall != nil {
+				anyT, _ := boolEdges(anyCall)
+				useFld, suppFld := -1, -1
+				allInstrs(nw, func(in ssa.Instruction) {
+					switch x := in.(type) {
+					case *ssa.Store:
+						cst, isC := x.Val.(*ssa.Const)
+						if !isC || cst.Value == nil || cst.Value.String() != "true" || !guardedByEdges(nw, x, anyT) {
+							return
+						}
+						if k, ok := elemField(x.Addr, elems); ok {
+							useFld = k // a pointer kept in the row
+						}
+						if ac, isCall := x.Addr.(*ssa.Call); isCall && staticCallee(ac) == nil && !ac.Call.IsInvoke() {
+							if k, ok := elemField(ac.Call.Value, elems); ok {
+								useFld = k // an accessor kept in the row
+							}
+						}
+					case *ssa.Call:
+						if staticCallee(x) == diff && guardedByEdges(nw, x, anyT) {
+							if vs, ok2 := varargValues(x.Call.Args[1]); ok2 && len(vs) == 1 {
+								if k, ok := elemField(vs[0], elems); ok {
+									suppFld = k
+								}
+							}
+						}
+					}
+				})
+				if useFld >= 0 && suppFld >= 0 {
+					for _, row := range rows {
+						st := planStep{pos: anyCall.Pos()}
+						mv := stripConv(row[marksFld])
+						if t := m.tableOfGlobal(mv); t != "" {
+							st.table = t
+						} else if dc, ok := mv.(*ssa.Call); ok && staticCallee(dc) == diff {
+							st.table = m.tableOfGlobal(dc.Call.Args[0])
+							if vs, ok := varargValues(dc.Call.Args[1]); ok {
+								for _, v := range vs {
+									st.minus = append(st.minus, m.tableOfGlobal(v))
+								}
+							}
+						}
+						st.subTable = m.tableOfGlobal(stripConv(row[suppFld]))
+						switch u := stripConv(row[useFld]).(type) {
+						case *ssa.FieldAddr:
+							st.flag, _ = fieldOf(u)
+						case *ssa.Function:
+							st.flag = accessorField(u)
+						case *ssa.MakeClosure:
+							if uf, ok := u.Fn.(*ssa.Function); ok {
+								st.flag = accessorField(uf)
+							}
+						}
+						steps = append(steps, st)
+					}
+				}
+			}
+			if len(steps) > 0 {
+				return steps
+			}
+		}
 	}
 	seenHelper := map[*ssa.Function]bool{}
 	for _, ci := range callsIn(nw) {
@@ -500,6 +572,32 @@ func (m *fieldModel) dispatch(c *Ctx) {
 			cur[1] = append(cur[1], fl...)
 			flagEdges[f] = cur
 		})
+	}
+	// a flag handed to a dispatch helper as a plain bool parameter (c.chain(ctx, url, filter.UseBlocks, …)):
+	// tests of the parameter are tests of the flag
+	for _, df := range dispFns {
+		if df == get {
+			continue
+		}
+		for _, p := range df.Params {
+			if !isBoolType(p.Type()) {
+				continue
+			}
+			a := stripConv(greg.Resolve(p))
+			u, ok := a.(*ssa.UnOp)
+			if !ok || u.Op != token.MUL {
+				continue
+			}
+			f, base := fieldOf(u.X)
+			if f == nil || namedOf(base.Type()) != filterT {
+				continue
+			}
+			t, fl := boolEdges(p)
+			cur := flagEdges[f]
+			cur[0] = append(cur[0], t...)
+			cur[1] = append(cur[1], fl...)
+			flagEdges[f] = cur
+		}
 	}
 	// routines: direct calls to (*Client).x or bound-method values passed to cache.get
 	routineOfCall := func(ci ssa.CallInstruction) *ssa.Function {
@@ -996,4 +1094,21 @@ func fieldSetString(s map[*types.Var]bool) string {
 	}
 	sort.Strings(ns)
 	return "{" + strings.Join(ns, ",") + "}"
+}
+
+// accessorField: f(x) returns &x.fld on its only return: fld.
+func accessorField(f *ssa.Function) *types.Var {
+	if f == nil || f.Blocks == nil || len(f.Params) != 1 {
+		return nil
+	}
+	rets := returnsOf(f)
+	if len(rets) != 1 || len(returnValues(rets[0])) != 1 {
+		return nil
+	}
+	fa, ok := stripConv(returnValues(rets[0])[0]).(*ssa.FieldAddr)
+	if !ok || stripConv(fa.X) != ssa.Value(f.Params[0]) {
+		return nil
+	}
+	fld, _ := fieldOf(fa)
+	return fld
 }
